@@ -5,6 +5,7 @@ log of generated programs; M4 scope-event invariants on every call frame,
 assignment and def the programs perform; adequacy measured by wrong-semantics
 modes (a program is non-trivial iff some wrong mode changes what it observes)."""
 from cklmon import core, differ, envtrace
+from cklmon.core import observe
 from cklgen import programs
 
 RULE = ("programs: nested function definitions to 4 levels over a 5-name pool (collisions intended), closures returned "
@@ -27,7 +28,7 @@ SHARD_TIMEOUT = {"quick": 300, "thorough": 3000}
 
 def plan(tier, seed):
     n = 12 if tier == "quick" else 48
-    return ([{"kind": "random", "n": 500 if tier == "quick" else 3200} for _ in range(n)] + [{"kind": "templates"}]
+    return ([{"kind": "random", "n": 500 if tier == "quick" else 3200} for _ in range(n)] + [{"kind": "templates"}, {"kind": "places"}]
             + [{"kind": "modscope", "n": 60 if tier == "quick" else 400} for _ in range(2 if tier == "quick" else 8)])
 
 
@@ -117,7 +118,108 @@ def run_modscope(spec, ctx):
                 break
 
 
+# ---- assignment through every kind of place, from every kind of scope -------------------------------------------
+# (name, [(initial value, value afterwards)] x 2, statement); T is the assigned variable
+PLACE_ASSIGNS = [
+    ("plain", [("5", "6"), ("'p'", "6")], "T = 6"),
+    ("compound-int", [("5", "7"), ("40", "42")], "T += 2"),
+    ("compound-str", [("'ab'", "'abc'"), ("''", "'c'")], "T += 'c'"),
+    ("compound-list", [("[1]", "[1, 2]"), ("[]", "[2]")], "T += [2]"),
+    ("compound-mul", [("5", "15"), ("2", "6")], "T *= 3"),
+    ("str-element", [("'abc'", "'aXc'"), ("'qrs'", "'qXs'")], "T[1] = 'X'"),
+    ("str-element-negative", [("'abc'", "'abXY'"), ("'q'", "'XY'")], "T[-1] = 'XY'"),
+    ("str-element-delete", [("'abc'", "'bc'"), ("'qr'", "'r'")], "T[0] = ''"),
+    ("str-element-compound", [("'abc'", "'aZbc'"), ("'q'", "'qZ'")], "T[0] += 'Z'"),
+    ("list-element", [("[1, 2, 3]", "[9, 2, 3]"), ("['q']", "[9]")], "T[0] = 9"),
+    ("list-element-negative", [("[1, 2, 3]", "[1, 2, 9]"), ("['q']", "[9]")], "T[-1] = 9"),
+    ("list-element-compound", [("[1, 2]", "[1, 10]"), ("[0, 3]", "[0, 15]")], "T[1] *= 5"),
+    ("nested-element", [("[[1], [2]]", "[[1], [7]]"), ("[0, [5, 5]]", "[0, [7, 5]]")], "T[1][0] = 7"),
+    ("map-entry", [("<<<'k' => 1>>>", "<<<'k' => 2>>>"), ("<<<'k' => 'q', 'j' => 0>>>", "<<<'k' => 2, 'j' => 0>>>")], "T['k'] = 2"),
+    ("map-new-entry", [("<<<'k' => 1>>>", "<<<'k' => 1, 'n' => 5>>>"), ("<<<>>>", "<<<'n' => 5>>>")], "T['n'] = 5"),
+    ("map-entry-compound", [("<<<'k' => 1>>>", "<<<'k' => 4>>>"), ("<<<'k' => 10, 'j' => 0>>>", "<<<'k' => 13, 'j' => 0>>>")], "T['k'] += 3"),
+    ("member", [("<*x = 1*>", "<*x = 2*>"), ("<*x = 'q', y = 0*>", "<*x = 2, y = 0*>")], "T->x = 2"),
+    ("member-by-index", [("<*x = 1*>", "<*x = 2*>"), ("<*x = 'q', y = 0*>", "<*x = 2, y = 0*>")], "T['x'] = 2"),
+    ("member-compound", [("<*x = 1*>", "<*x = 6*>"), ("<*x = 10, y = 0*>", "<*x = 15, y = 0*>")], "T->x += 5"),
+    ("nested-member", [("<*p = <*q = 1*>*>", "<*p = <*q = 2*>*>"), ("<*p = <*q = 'q', r = 0*>*>", "<*p = <*q = 2, r = 0*>*>")], "T->p->q = 2"),
+    ("destructuring", [("1", "7"), ("'q'", "7")], "[T, U_] = [7, 8]"),
+    ("destructuring-swap", [("1", "0"), ("'q'", "0")], "[T, U_] = [U_, T]"),
+]
+# (name, program around the statement {st}; {I1}/{I2} the two initial values; result [T, what the assigning scope reads
+# back]; which of the two values the outer T / the read-back show afterwards: 'new1' = first value assigned, 'old1' =
+# first value untouched, 'new2' = second value assigned)
+PLACE_SCOPES = [
+    ("same-scope", "def T = {I1}; {st}; [T, T]", "new1", "new1"),
+    ("function", "def T = {I1}; def f() do {st}; T end; def back = f(); [T, back]", "new1", "new1"),
+    ("nested-function", "def T = {I1}; def f() do def g() do {st}; T end; g() end; def back = f(); [T, back]", "new1", "new1"),
+    ("closure-called-later", "def mk() do def T = {I1}; [fn() do {st}; T end, fn() T] end; def [set_, get_] = mk(); def back = set_(); [get_(), back]", "new1", "new1"),
+    ("method", "def T = {I1}; def o_ = <*run = fn(self) do {st}; T end*>; def back = o_->run(); [T, back]", "new1", "new1"),
+    ("loop-in-function", "def T = {I1}; def f() do for i_ in [1] do {st} end; T end; def back = f(); [T, back]", "new1", "new1"),
+    ("while-in-function", "def T = {I1}; def f() do def n_ = 0; while n_ < 1 do n_ += 1; {st} end; T end; def back = f(); [T, back]", "new1", "new1"),
+    ("block-in-function", "def T = {I1}; def f() do do {st} catch 'zz' NULL finally 0 end; T end; def back = f(); [T, back]", "new1", "new1"),
+    ("if-in-function", "def T = {I1}; def f() do if TRUE then do {st} end; T end; def back = f(); [T, back]", "new1", "new1"),
+    ("callback", "def T = {I1}; def back = NULL; def apply_(g_) g_(1); apply_(fn(x_) do {st}; back = T end); [T, back]", "new1", "new1"),
+    ("lambda-called-at-once", "def T = {I1}; def back = (fn() do {st}; T end)(); [T, back]", "new1", "new1"),
+    ("parameter-shadows", "def T = {I1}; def f(T) do {st}; T end; def back = f({I2}); [T, back]", "old1", "new2"),
+    ("local-def-shadows", "def T = {I1}; def f() do def T = {I2}; {st}; T end; def back = f(); [T, back]", "old1", "new2"),
+    ("default-shadows", "def T = {I1}; def f(T = {I2}) do {st}; T end; def back = f(); [T, back]", "old1", "new2"),
+    ("caller-has-same-name", "def T = {I1}; def f() do {st}; T end; def caller() do def T = {I2}; [f(), T] end; def back = caller(); [T, back]", "new1", "caller"),
+    ("twice", "def T = {I1}; def f() do {st}; T end; f(); def T2 = T; [T2 == T, T is not NULL]", "twice", "twice"),
+]
+
+
+def run_places(spec, ctx):
+    import ckl.functions
+    its = [core.new_interpreter(secure=True, legacy=True)[0], core.new_interpreter(secure=True, legacy=False)[0]]
+
+    def ev(it, src):
+        return observe(lambda: it.interpret(src, "c03", ckl.functions.Environment()), 400000)
+
+    def text(o):
+        return core.safe_str(o.value, 300) if o.kind == "value" else "%s: %s" % (o.kind, core.safe_str(getattr(o.exc, "msg", o.exc), 200))
+    for aname, pairs, st in PLACE_ASSIGNS:
+        (i1, n1), (i2, n2) = pairs
+        for sname, tmpl, outer, back in PLACE_SCOPES:
+            if sname == "twice":
+                continue
+            pre = "def U_ = 0; " if "U_" in st else ""
+            if "U_" in st and sname == "closure-called-later":
+                pre = "def U_ = 0; "
+            src = pre + tmpl.replace("{st}", st).replace("{I1}", i1).replace("{I2}", i2)
+            vals = {"new1": n1, "old1": i1, "new2": n2, "caller": "[%s, %s]" % (n1, i2)}
+            want_src = "[%s, %s]" % (vals[outer], vals[back])
+            for li, it in enumerate(its):
+                w = ev(it, want_src)
+                o = ev(it, src)
+                ctx.count("place_programs")
+                ctx.case(("place", aname, sname, li))
+                if w.kind != "value":
+                    ctx.count("harness_syntax_errors")
+                    ctx.note("expected-value text does not evaluate: %s" % want_src)
+                    continue
+                if o.kind == "syntax":
+                    ctx.count("harness_syntax_errors")
+                    ctx.note("place program does not parse: %s" % src)
+                    continue
+                if o.kind != "value" or text(o) != text(w):
+                    ctx.violation("C03:place-assignment:%s:%s" % (aname, sname),
+                                  "%s -> %s; the nearest enclosing binding of T should end as %s" % (src, text(o), text(w)), {"src": src})
+        # assignment never creates a binding: with no T anywhere the statement fails and leaves no T behind
+        for sname, tmpl in (("function", "def f() do do {st}; 'no error' catch all 'error' end end; [f(), do T catch all 'undefined' end]"),
+                            ("top-level", "def r_ = do {st}; 'no error' catch all 'error' end; [r_, do T catch all 'undefined' end]"),
+                            ("closure", "def r_ = (fn() do {st}; 'no error' catch all 'error' end)(); [r_, do T catch all 'undefined' end]")):
+            src = ("def U_ = 0; " if "U_" in st else "") + tmpl.replace("{st}", st)
+            for li, it in enumerate(its):
+                o = ev(it, src)
+                ctx.count("place_programs")
+                ctx.case(("place-undefined", aname, sname, li))
+                if o.kind != "value" or text(o) != "['error', 'undefined']":
+                    ctx.violation("C03:assignment-creates-binding:%s:%s" % (aname, sname), "%s -> %s; no T is defined, so this must fail and define nothing" % (src, text(o)), {"src": src})
+    ctx.sample({"place_assignments": len(PLACE_ASSIGNS), "scopes": len(PLACE_SCOPES)})
+
+
 def run_shard(spec, ctx):
+    if spec["kind"] == "places":
+        return run_places(spec, ctx)
     if spec["kind"] == "modscope":
         return run_modscope(spec, ctx)
     import ckl.functions
@@ -151,7 +253,7 @@ def finalize(merged, tier):
     reasons = []
     if c.get("harness_syntax_errors", 0):
         reasons.append("%d generated programs did not parse (harness defect)" % c["harness_syntax_errors"])
-    for k in ("differential_comparisons", "env_call_frames", "env_assignments", "env_defs", "templates", "modscope_comparisons"):
+    for k in ("differential_comparisons", "env_call_frames", "env_assignments", "env_defs", "templates", "modscope_comparisons", "place_programs"):
         if c.get(k, 0) == 0:
             reasons.append("monitor counter %s is zero" % k)
     disc = {m: c.get("discriminates_" + m, 0) for m in MODES}
